@@ -159,6 +159,37 @@ def gen_cases(rng, tier):
                     vec = fqeio.random_state(rng, norb, keys, density=rng.choice([0.3, 0.8, 1.0]))
                     cases.append({'kind': 'apply', 'norb': norb, 'mode': mode, 'n': n, 'sz': sz,
                                   'vec': vec, 'ham': ham})
+    # spin-transferring sparse strings on spin-broken wavefunctions, systematically over the net spin transfer
+    # nda = #alpha creators - #alpha annihilators in {+-1, +-2, +-3, 0 (exchange)} and over electron numbers
+    # (FqeDataSet.apply_individual_nbody_accumulate: the phase of beta operators moved past the alpha electrons)
+    for nda in (1, -1, 2, -2, 3, -3, 0):
+        for rep in range(2 if tier == 'quick' else 6):
+            norb = 3 if tier == 'quick' or rep % 2 == 0 else 4
+            m = max(abs(nda), 2 if nda == 0 else 1)
+            up = [2 * i for i in rng.sample(range(norb), m)]
+            dn = [2 * i + 1 for i in rng.sample(range(norb), m)]
+            if nda > 0:
+                cr, an = up, dn
+            elif nda < 0:
+                cr, an = dn, up
+            else:
+                cr, an = [up[0], dn[0]], [dn[1], up[1]]
+            if rng.random() < 0.4 and m < 3:        # a spectator operator pair of either spin
+                q = rng.randrange(2 * norb)
+                if q not in cr and q not in an:
+                    cr, an = cr + [q], an + [q]
+            ops = [[q, 1] for q in cr] + [[q, 0] for q in an]
+            if rng.random() < 0.5:
+                rng.shuffle(ops)
+            re, im = _rand_c(rng)
+            ents = [[ops, re, im]]
+            if rep % 2 == 1:
+                ents.append([_adjoint_ops(ops), re, -im])
+            n = rng.choice([3, 4]) if rep % 2 == 0 else rng.randint(2, 2 * norb - 1)
+            keys = fqeio.sector_keys(norb, 'sb', n, 0)
+            cases.append({'kind': 'apply', 'norb': norb, 'mode': 'sb', 'n': n, 'sz': 0,
+                          'vec': fqeio.random_state(rng, norb, keys, density=0.8),
+                          'ham': {'cls': 'sparse', 'rank': 0, 'entries': ents, 'e0': rng.choice([[0, 0], [2, 0]]), 'real': False}})
     # number-broken wavefunctions: Hermitian FermionOperators with pairing terms
     for _ in range(25 if tier == 'quick' else 100):
         norb = rng.randint(1, 3)
